@@ -138,6 +138,27 @@ func pathParts(v ssa.Value) []ssa.Value {
 							return
 						}
 					}
+					// … of a literal array indexed directly
+					if al, ok := ia.X.(*ssa.Alloc); ok && al.Referrers() != nil {
+						if _, isArr := an.Deref(al.Type()).Underlying().(*types.Array); isArr {
+							var elems []ssa.Value
+							for _, ref := range *al.Referrers() {
+								if ia2, ok := ref.(*ssa.IndexAddr); ok && ia2.Referrers() != nil {
+									for _, rr := range *ia2.Referrers() {
+										if st, ok := rr.(*ssa.Store); ok && st.Addr == ssa.Value(ia2) {
+											elems = append(elems, st.Val)
+										}
+									}
+								}
+							}
+							if len(elems) > 0 {
+								for _, e := range elems {
+									walk(e, d+1)
+								}
+								return
+							}
+						}
+					}
 				}
 			}
 		}
@@ -629,25 +650,8 @@ func hasCleanupLoop(fn *ssa.Function) bool {
 		}
 		if u, ok := cc.Call.Args[0].(*ssa.UnOp); ok && u.Op == token.MUL {
 			if ia, ok := u.X.(*ssa.IndexAddr); ok {
-				// the list: a slice of a literal array, possibly held in a local variable
-				x := ia.X
-				if ld, ok := x.(*ssa.UnOp); ok && ld.Op == token.MUL {
-					if o := an.Origin(ld); o != ssa.Value(ld) {
-						x = o
-					}
-				}
-				if sl, ok := x.(*ssa.Slice); ok {
-					if al, ok := sl.X.(*ssa.Alloc); ok && al.Referrers() != nil {
-						n := 0
-						for _, ref := range *al.Referrers() {
-							if _, ok := ref.(*ssa.IndexAddr); ok {
-								n++
-							}
-						}
-						if n >= 3 {
-							found = true
-						}
-					}
+				if elems, ok := literalListElems(ia); ok && len(elems) >= 3 {
+					found = true
 				}
 			}
 		}
@@ -1061,8 +1065,17 @@ func runFSCleanup(c *core.Ctx) {
 								lx = o
 							}
 						}
+						// the literal list: a slice of a literal array, or the array itself (dirs := [...]string{…}; dirs[i])
+						var al *ssa.Alloc
 						if sl, ok := lx.(*ssa.Slice); ok {
-							if al, ok := sl.X.(*ssa.Alloc); ok {
+							al, _ = sl.X.(*ssa.Alloc)
+						} else if a2, ok := lx.(*ssa.Alloc); ok {
+							if _, isArr := an.Deref(a2.Type()).Underlying().(*types.Array); isArr {
+								al = a2
+							}
+						}
+						if al != nil {
+							if al.Referrers() != nil {
 								// elements in index order
 								type el struct {
 									i int64
